@@ -89,7 +89,7 @@ func drawConnCase(rt *rapid.T, layer string, lp layerParams, tamper bool) *connC
 }
 
 // runConnCase runs one scenario inside the current bubble.
-func runConnCase(f failer, c *connCase, lp layerParams, setup secureSetup) connOutcome {
+func runConnCase(f failer, env runEnv, c *connCase, lp layerParams, setup secureSetup) connOutcome {
 	var out connOutcome
 	ma, mb := memnet.Pipe(memnet.Options{Capacity: c.Cap})
 	defer ma.Close()
@@ -131,16 +131,16 @@ func runConnCase(f failer, c *connCase, lp layerParams, setup secureSetup) connO
 				readerCfg{mode: readUntilErr, frameMax: lp.frameMax, tagLen: lp.tagLen, tampered: tampering && d == c.TDir, extraRead: 4})
 		}()
 	}
-	if !waitDone(wdone, 2) {
-		f.Fatalf("%s: writers did not finish within a virtual hour (first failure so far: %q)", c.Layer, sk.get())
+	if !env.waitDone(wdone, 2) {
+		env.stalled(f, "%s: writers did not finish within a virtual hour (first failure so far: %q)", c.Layer, sk.get())
 	}
 	// no more bytes will be sent: end both byte streams underneath the secure channel
 	ta.flush()
 	tb.flush()
 	ma.CloseWrite()
 	mb.CloseWrite()
-	if !waitDone(rdone, 2) {
-		f.Fatalf("%s: readers did not finish within a virtual hour after the pipe was half-closed (first failure so far: %q)", c.Layer, sk.get())
+	if !env.waitDone(rdone, 2) {
+		env.stalled(f, "%s: readers did not finish within a virtual hour after the pipe was half-closed (first failure so far: %q)", c.Layer, sk.get())
 	}
 	if msg := sk.get(); msg != "" {
 		f.Fatalf("%s", msg)
@@ -341,7 +341,7 @@ func connProperty(t *testing.T, layer string, lp layerParams, tamper bool, setup
 		c := drawConnCase(rt, layer, lp, tamper)
 		var out connOutcome
 		hx.Bubble(t, rt, func() {
-			out = runConnCase(rt, c, lp, setupFor(c))
+			out = runConnCase(rt, bubbleEnv, c, lp, setupFor(c))
 		})
 		labels, nontrivial := connLabels(c, lp, out)
 		stats.Case(name, c.fingerprint(), nontrivial, labels...)
